@@ -656,6 +656,10 @@ func (l *Lexer) skipComment(noPanic bool) bool {
 
 func (l *Lexer) skipCommentUntil(end string, mustEnd bool, noPanic bool) bool {
 	pos := token.Pos(l.pos)
+	if mustEnd {
+		// The opener "/*" must not be taken for a part of the terminator: "/*/" is not a complete comment.
+		l.skipN(2)
+	}
 	for !l.eof() {
 		if l.slice(0, len(end)) == end {
 			l.skipN(len(end))
